@@ -232,7 +232,10 @@ def c19_3(ctx):
         ok = set('abcxyzABCXYZ0189_-.') <= set(cs) and not (set(' <>="') & set(cs))
     ctx.check(ok, 'require:pattern-name-class', site, 'a language name may contain letters, digits, "_", "-" and "." and stops at blanks, quotes and operator characters', '')
     qi = [i for i, (op, av) in enumerate(items) if str(op) == 'LITERAL' and av == 34]
-    ctx.check(len(qi) == 2 and str(items[qi[0] + 1][0]) == 'SUBPATTERN' and qi[1] == len(items) - 1, 'require:pattern-quoted', site,
+    tail_ = items[qi[1] + 1:] if len(qi) == 2 else None
+    # after the closing quote only blanks and the end of the directive may follow
+    tail_ok = tail_ is not None and all(str(op) == 'AT' or (str(op) == 'MAX_REPEAT' and av[0] == 0 and len(av[2]) == 1 and str(av[2][0][0]) == 'IN') for op, av in tail_)
+    ctx.check(len(qi) == 2 and str(items[qi[0] + 1][0]) == 'SUBPATTERN' and tail_ok, 'require:pattern-quoted', site,
               'the requirement is everything between the two double quotes (the closing quote follows the name or the version directly)', '')
     init = ctx.repo.func(RL + '.__init__')
     res = resolver(ctx, init, inline=False)
